@@ -391,7 +391,27 @@ fn session<F: Fl>(sid: u64, fam: &str, seed: u64, o: &Opts, shape: &str, kind: &
     let a = to_mp::<F>(&l.a, &m, &mut rng, true);
     let b = to_mp::<F>(&l.b, &m, &mut rng, true);
     let c = to_mp::<F>(&l.c, &m, &mut rng, true);
-    let mx = max_abs(&a).max(max_abs(&b)).max(max_abs(&c)).max(f64::MIN_POSITIVE);
+    // a FAR PART (one session in three): A plus a rectangle 40..90 cells to the side (in lattice coordinates, pushed through the
+    // same map), as a base operand of its own: the laws judge op(Af, B) against the even-odd reading of Af and B at the same
+    // witnesses, so the answer near A and B must not depend on the part - nor on the early exits it switches on or off (it
+    // moves the operand's bounding box)
+    let mut far: Option<MultiPolygon<F>> = if shape != "chain" && rng.chance(1, 3) {
+        let side = rng.below(4);
+        let d = rng.range(40, 90) * l.cell;
+        let (fx, fy) = match side {
+            0 => (l.origin.0 - d, l.origin.1 + rng.range(-2, 2) * l.cell),
+            1 => (l.origin.0 + l.kx * l.cell + d, l.origin.1 + rng.range(-2, 2) * l.cell),
+            2 => (l.origin.0 + rng.range(-2, 2) * l.cell, l.origin.1 + l.ky * l.cell + d),
+            _ => (l.origin.0 + rng.range(-2, 2) * l.cell, l.origin.1 - d),
+        };
+        let (fw, fh) = (rng.range(1, 3) * l.cell, rng.range(1, 2 + l.ky) * l.cell);
+        let mut af = l.a.clone();
+        af.push((vec![(fx, fy), (fx + fw, fy), (fx + fw, fy + fh), (fx, fy + fh)], vec![]));
+        Some(to_mp::<F>(&af, &m, &mut rng, false))
+    } else {
+        None
+    };
+    let mx = max_abs(&a).max(max_abs(&b)).max(max_abs(&c)).max(far.as_ref().map(|g| max_abs(g)).unwrap_or(0.0)).max(f64::MIN_POSITIVE);
     let mexp = mx.log2().floor() as i32 + 1;
     let ws = witnesses(&l, &m, &mut rng, 4 * (l.kx * l.ky) as usize + 24);
     let wits = format!("[{}]", ws.iter().map(|(x, y)| format!("[\"{:016x}\",\"{:016x}\"]", x.to_bits(), y.to_bits())).collect::<Vec<_>>().join(","));
@@ -424,6 +444,12 @@ fn session<F: Fl>(sid: u64, fam: &str, seed: u64, o: &Opts, shape: &str, kind: &
             } else {
                 let op = *rng.pick(&["int", "union", "xor"]);
                 fs.call(op, "B", "A", 'm', 'm');
+            }
+            if let Some(gaf) = far.take() {
+                fs.def("Af", gaf);
+                let which = *rng.pick(&["diff", "int", "union", "xor", "diff"]);
+                fs.call(which, "Af", "B", 'm', 'm');
+                fs.call(which, "B", "Af", 'm', 'm');
             }
             // self-operations: every edge is shared bit for bit by subject and clipping
             if rng.chance(1, 2) {
